@@ -379,6 +379,7 @@ func ruleC20(p *Prog, r *Res) {
 		})
 	}
 	r.Note("%s: %d address-of-Manager-field expressions examined", ruleE, ne)
+	r.OkTrivial(ruleE, fmt.Sprintf("address-of-Manager-field expressions in package manager: %d examined", ne), "", "each is judged as its own obligation above; a positive control (the pre-repair webhook event) is replayed in the thorough tier")
 	// results and events must not carry Manager-owned slices/maps themselves: `c <- mgr.field` / Event{…: mgr.field}
 	nv := 0
 	for _, f := range p.FnList {
